@@ -98,6 +98,12 @@ def gen_cases(tier, rng):
                         for n in (0, 1, -1, to_end, to_end + 1, -idx, -idx - 1, 1 << 62):
                             if fits(k, n):
                                 cases.append("arith%s %s %s %d %s %d" % (cfg, pt, form, p, k, n))
+                # the pointer operand itself lives in sandbox memory and is rewritten right after its first fetch
+                if sname in ("second", "last", "interior"):      # (a cell cannot hold the base itself: its representation is the null one)
+                    for wrapk in ("pcell0", "pcellm"):
+                        for n in (0, 1, 2, to_end, to_end + 1, -idx, -idx - 1):
+                            for form in ("add", "sub", "index"):
+                                cases.append("arith%s %s %s %d llong %d %s" % (cfg, pt, form, p, n, wrapk))
                 for form in ("preinc", "postinc", "predec", "postdec"):
                     cases.append("arith%s %s %s %d int 1" % (cfg, pt, form, p))
                 # tainted / tainted_volatile operands
@@ -108,10 +114,10 @@ def gen_cases(tier, rng):
                                 for form in ("add", "sub", "index", "radd"):
                                     cases.append("arith%s %s %s %d %s %d %s" % (cfg, pt, form, p, k, n, wrapk))
     if tier == "quick" and len(cases) > 60000:
-        keep = [c for c in cases if c.startswith("stride")]
-        rest = [c for c in cases if not c.startswith("stride")]
+        keep = [c for c in cases if c.startswith("stride") or "pcell" in c]
+        rest = [c for c in cases if not (c.startswith("stride") or "pcell" in c)]
         rng.shuffle(rest)
-        cases = keep + rest[:60000]
+        cases = keep + rest[:max(0, 60000 - len(keep))]
     return cases
 
 
